@@ -29,7 +29,10 @@ def collect(tag, cfg, timeout=3000):
     cmd = [PY, "-m", "pytest", "-q", "-p", "no:cacheprovider", "-p", "harness.repotrace", "--timeout=900"] + cfg["files"]
     if cfg["k"]:
         cmd += ["-k", cfg["k"]]
-    p = subprocess.run(cmd, cwd=core.REPO, env=env, capture_output=True, text=True, timeout=timeout)
+    try:
+        p = subprocess.run(cmd, cwd=core.REPO, env=env, capture_output=True, text=True, timeout=timeout)
+    except subprocess.TimeoutExpired:
+        raise tla.MachineryError(f"the repository's tests did not finish within {timeout}s under the recording plugin")
     if not os.path.exists(out):
         raise tla.MachineryError(f"the repository's tests did not produce a trace file (pytest exit {p.returncode}):\n"
                                  + (p.stdout + p.stderr)[-1500:])
